@@ -159,7 +159,7 @@ def register_canonical_callers(reg):
         reg.add(Contract(
             f"{SG}.{nm}", self_cls="StructuredGrid", params={"data": None}, verify=False,
             requires=lambda ctx: grid_wf(ctx, ctx.self, rk(ctx)),
-            result_fn=lambda ctx: arr.fresh_arr(sv.uid("CAN"), rk(ctx), "real"),
+            result_fn=lambda ctx: arr.fresh_arr(sv.uid("CAN"), rk(ctx), ctx.data.dtype),
             ensures=lambda ctx, r, post=post: post(ctx, r, rk(ctx)), modifies=lambda ctx: [], pure=True,
             raises={"ValueError": lambda ctx, bad=bad: bad(ctx, rk(ctx))}, must_raise={"ValueError": lambda ctx, bad=bad: bad(ctx, rk(ctx))},
             raise_frame_empty=True, name=nm,
@@ -218,6 +218,24 @@ def install(ex):
             return sv.SBool(z3.ForAll([i], Implies(And(0 <= i, i < n), rabs(ai - bi) <= ATOL + RTOL * rabs(bi))))
         raise Unsupported(f"np.allclose({a}, {b})", node)
 
+    def np_all_any(is_all):
+        def fn(ex, path, args, kwargs, node):
+            a = args[0]
+            if kwargs or len(args) != 1:
+                raise Unsupported("np.all / np.any with axis arguments", node)
+            if isinstance(a, (sv.STup, sv.SList)) and hasattr(a, "items"):
+                bs = [ex.truthy(x, path) for x in a.items]
+                return sv.SBool(And(*bs) if is_all else Or(*bs))
+            if isinstance(a, SArr) and a.dtype == "bool":
+                return sv.SBool(arr.all_true(a) if is_all else Not(arr.all_true(arr.logical_not(a))))
+            if isinstance(a, sv.SBool):
+                return a
+            raise Unsupported(f"np.all / np.any of {a}", node)
+        return fn
+
+    ex.ext_models["numpy.all"] = np_all_any(True)
+    ex.ext_models["numpy.any"] = np_all_any(False)
+    ex.pure_ext.update({"np.all", "np.any"})
     ex.ext_models["numpy.allclose"] = np_allclose
     ex.pure_ext.add("np.allclose")
 
@@ -316,7 +334,7 @@ def register(reg):  # noqa: F811
 
 _BG = {"name": "grid-layouts", "script": "replay/drivers/bnd_grids.py", "args": ["--json"], "timeout": 3000}
 BOUNDED = {"C14": [_BG], "C15": [_BG]}
-REPLAY = {f"{SG}.compatible_with": "grid_compat.py", f"{SG}.to_canonical": "bnd_grids.py", f"{SG}.from_canonical": "bnd_grids.py",
+REPLAY = {f"{SG}.compatible_with": "grid_compat.py", f"{SG}.__eq__": "bnd_grids.py", f"{SG}.get_transform_to": "bnd_grids.py", f"{SG}.to_canonical": "bnd_grids.py", f"{SG}.from_canonical": "bnd_grids.py",
           "finam.data.grid_spec.RectilinearGrid.data_shape": "bnd_grids.py", "finam.data.grid_spec.RectilinearGrid.data_size": "bnd_grids.py",
           "finam.data.grid_spec.RectilinearGrid.data_location.setter": "bnd_grids.py"}
 
